@@ -72,6 +72,7 @@ class Cx:
         self.replay_violations = []
         self.precondition_failed = False
         self.npaths = 0
+        self.trivial = 0
 
     # ---- inputs --------------------------------------------------------
     def _get(self, name, lo=-2.0, hi=2.0):
@@ -215,8 +216,8 @@ class Cx:
                         continue
                     goals.append((idx, part, zx == zy))
             if not goals:
-                self.records.append(dict(label=label, verdict="unsat", trivial=True, secs=0.0,
-                                         path=self.npaths))
+                # both sides are the same terms: nothing for the solver to decide; counted, not stored
+                self.trivial += 1
                 return
             if each:
                 nsat = 0
@@ -345,6 +346,7 @@ def run_instance_sym(h, params, qtimeout, want_smt2=True):
     npaths = 0
     twin_ok = True
     reduced_twins = 0
+    trivial = 0
     inputs = set()
     status = "ok"
     err = None
@@ -390,6 +392,7 @@ def run_instance_sym(h, params, qtimeout, want_smt2=True):
         for rec in cx.records:
             rec["decisions"] = list(ENGINE.decisions)
         all_records += cx.records
+        trivial += cx.trivial
         samples += cx.samples
         for n in cx.notes:
             if n not in notes:
@@ -402,7 +405,7 @@ def run_instance_sym(h, params, qtimeout, want_smt2=True):
         npaths += 1
     return dict(harness=h.name, params=params, status=status, error=err, paths=npaths,
                 records=all_records, notes=notes, assumptions=assumption_notes,
-                samples=samples, twin_ok=twin_ok, reduced_twins=reduced_twins, wall=round(time.time() - t0, 3),
+                samples=samples, twin_ok=twin_ok, reduced_twins=reduced_twins, trivial=trivial, wall=round(time.time() - t0, 3),
                 solver_s=round(sum(r.get("secs", 0) for r in all_records), 3),
                 ninputs=len(inputs))
 
@@ -544,6 +547,7 @@ def run_property(pid, tier, replay_path=None, only=None, nproc=None):
 
     known = load_known()
     obligations = discharged = nsat = nunknown = 0
+    trivial_total = 0
     inconclusive = []
     violations = []
     from vf import xhair as _xh
@@ -574,6 +578,12 @@ def run_property(pid, tier, replay_path=None, only=None, nproc=None):
             if len(samples) < 3:
                 samples.append(dict(harness=hname, params=params, **smp))
         sat_seen = set()
+        ntriv = res.get("trivial", 0)
+        obligations += ntriv
+        discharged += ntriv
+        trivial_total += ntriv
+        hsum["obligations"] += ntriv
+        hsum["unsat"] += ntriv
         for rec in res.get("records", []):
             if rec["label"] == "twin":
                 continue
@@ -706,6 +716,7 @@ def run_property(pid, tier, replay_path=None, only=None, nproc=None):
                   "solver had to decide it"),
             samples=samples if samples else [dict(note="no non-trivial query sample captured")],
             sat=nsat, unknown=nunknown, paths=total_paths, solver_s=round(solver_s, 3),
+            syntactically_identical=trivial_total,
             functions_encoded=funcs, source_hashes=files,
             bounds={h.name: dict(bound=h.bound, outside=h.out,
                                  instances=(h.quick if tier == "quick" else h.thorough))
